@@ -141,6 +141,31 @@ def run(ctx: Ctx) -> int:
             continue
         real_direct.append(H.direct_case_coq(intern, [e.clock for e in entries], obs))
         real_info.append({"job": job, "variant": variant, "plan": lines})
+    # ------------------------------------------------------------------ 5d. editing sessions on one engine (rollback / reload between readings)
+    session_stats = []
+    t_sess = time.time()
+    sess_jobs = [(j, v) for v in (2, 0) for j in jobs] if ctx.thorough else [(jobs[3], 2), (jobs[4], 0)]
+    for i, (job, variant) in enumerate(sess_jobs):
+        if time.time() - t_sess > (400 if ctx.thorough else 45) or found:
+            break
+        rr = random.Random(ctx.seed + 1350 + i)
+        try:
+            rcalc = None
+            for label, lines, eng, entries in H.real_session(rr, job, variant, 30 if ctx.thorough else 22, rounds=4 if ctx.thorough else 3):
+                if rcalc is None:
+                    from simaple.container.simulation import get_damage_calculator
+                    rcalc = get_damage_calculator(simenv.get_env(job, variant))
+                try:
+                    v, st = H.real_run_violation(eng, entries, rcalc, [1000, 5000])
+                except Exception as e:
+                    v, st = {"what": "report code raises on a real run: %r" % e, "expected": "no exception", "observed": repr(e)}, {}
+                session_stats.append({"job": job, "variant": variant, "reading": label, "entries": st.get("entries"), "commands": len(lines)})
+                if v:
+                    found.append(dict(H.dumpable(v), job=job, variant=variant, plan=lines, session_step=label,
+                                      source="editing session on one engine (report read, rollback/reload, other commands, report read again)"))
+                    break
+        except Exception as e:
+            ctx.log("session %s/%d could not be executed: %r" % (job, variant, e))
     if real_direct:
         shards["c13_real"] = H.report_shard([], real_direct)
 
@@ -269,7 +294,7 @@ def run(ctx: Ctx) -> int:
                            "generated_model_used": bool(src_vo)},
         "impl_search": {"exhaustive_max_length": bmax, "exhaustive_alphabet": "clock steps {0,1,2} x damages {0,1,2}, every L in 1..span+1",
                         "exhaustive_cases": tried, "random_cases": extra, "seconds": round(time.time() - t0, 1),
-                        "generated_runs_checked": len(rcases), "real_runs": real_stats, "counterexamples": len(found)},
+                        "generated_runs_checked": len(rcases), "real_runs": real_stats, "editing_sessions": session_stats, "counterexamples": len(found)},
         "outside_domain": {"L<=0": nonpos, "note": "L <= 0 raises IndexError on every non-empty list (C13_window_nonpositive_length_raises), "
                            "the empty list yields (0,0,0); the window theorems assume L > 0"},
         "model_files": ["coq/theories/Model/Window.v", "coq/theories/Model/Report.v", "coq/gen/WindowSrc.v (regenerated)",
